@@ -701,6 +701,13 @@ class Ctx:
             self._inliner = Inliner(self.repo)
         return self._inliner.inlined(fn, keep)
 
+    def attempt(self, rule_fn: Any, *args: Any) -> None:
+        """run one rule; if it cannot be instantiated (AnalysisError) the others still run and what they found stands"""
+        try:
+            rule_fn(*args)
+        except AnalysisError as ex:
+            self.errors.append("%s: %s" % (getattr(rule_fn, "__name__", "rule"), ex))
+
     def rule(self, rid: str, doc: str, min_instances: int = 1) -> str:
         self.rule_docs[rid] = doc
         self.rule_min[rid] = min_instances
